@@ -51,6 +51,10 @@
  *                                                  [. <ref> .. <ref> <state>] | err <NAME>
  *   dirlist <start_block> <offset> <size>       open_dir + sqfs_dir_reader_read until the end
  *                                               -> n=<entries> names=<sum size+1> refs=<sum refs mod 2^32> eof|err <NAME>
+ *   cpack <comp id> <block size> <hex data>     the real compressor of the tree (compress mode): -> ok <hex> | raw | err <NAME>
+ *   cunpack <comp id> <block size> <outsize> <hex input>
+ *                                               the real decompressor: do_block into an exact `outsize` byte heap
+ *                                               buffer -> ret <n> | err <NAME> | nocomp (id not compiled in)
  *   dentry <used> <uid_idx> <gid_idx> <len> <hex name>
  *                                               sqfs_dir_entry_from_inode on an id table with <used> ids and a name
  *                                               buffer of exactly the bytes + one NUL -> ok <strlen> | err <NAME>
@@ -64,6 +68,7 @@
 #include "sqfs/xattr.h"
 #include "sqfs/frag_table.h"
 #include "sqfs/dir_entry.h"
+#include "sqfs/compressor.h"
 #include "sqfs/dir_reader.h"
 #include "sqfs/dir.h"
 #include "sqfs/id_table.h"
@@ -526,6 +531,23 @@ int main(void)
 				}
 			}
 			free(ino); sqfs_drop(rd); sqfs_drop(f);
+		} else if ((!strcmp(t[0], "cpack") && nt == 4) || (!strcmp(t[0], "cunpack") && nt == 5)) {
+			int un = t[0][1] == 'u';
+			unsigned char *b; long n = hex_decode_tok(t[un ? 4 : 3], &b, 0);
+			sqfs_compressor_config_t cfg; sqfs_compressor_t *cmp = NULL; sqfs_u32 outsize; sqfs_u8 *in, *out; sqfs_s32 r;
+			if (n < 0) { puts("bad-op"); continue; }
+			if (sqfs_compressor_config_init(&cfg, U(t[1]), U(t[2]), un ? SQFS_COMP_FLAG_UNCOMPRESS : 0) ||
+			    sqfs_compressor_create(&cfg, &cmp)) { puts("nocomp"); free(b); continue; }
+			outsize = un ? U(t[3]) : (sqfs_u32)n;
+			in = malloc(n ? n : 1); memcpy(in, b, n);     /* exact sizes: every byte beyond is red zone */
+			if (n == 0) { free(in); in = malloc(0); }
+			out = malloc(outsize);
+			r = cmp->do_block(cmp, in, n, out, outsize);
+			if (r < 0) printf("err %s\n", ename(r));
+			else if (un) printf("ret %d\n", (int)r);
+			else if (r == 0) puts("raw");
+			else { long i; printf("ok "); for (i = 0; i < r; ++i) printf("%02x", out[i]); printf("\n"); }
+			free(in); free(out); sqfs_drop(cmp); free(b);
 		} else if (!strcmp(t[0], "dentry") && nt == 6) {
 			unsigned char *nm; long nn = hex_decode_tok(t[5], &nm, 0);
 			size_t used = U(t[1]), len = U(t[4]), i; char *name;
